@@ -99,9 +99,10 @@ LEVEL = {
     "C14": dict(
         text="Theorems: the post-filter's coefficient law (orders >= 2 times 1+beta, order 1 unchanged, order 0 shifted by half the log energy ratio minus "
              "beta*alpha^2*b2), its no-op cases, and freqt(alpha=0) = id for the repaired input order with the pinned order's reversal as a statement (defect "
-             "found by trying to state this lemma; fix 4304ae0). The 1 % energy clause concerns the true impulse response of the running filter and is decided "
+             "found by trying to state this lemma; fix 4304ae0). The gain compensation restores the 576-tap impulse-response energy exactly (postfilter_preserves_energy; exp additive and positive, "
+             "exp(ln x) = x as hypotheses). The 1 % energy clause concerns the true impulse response of the running filter and is decided "
              "on every run from pulse responses with and without beta, together with the spectral form of the coefficient law.",
-        note="Trusted: as C06; energy preservation itself is test-level (576-tap estimate vs true response).",
+        note="Trusted: as C06; the 576-tap energy is preserved by theorem, the true (Pade-approximated, infinite) response's energy is test-level.",
     ),
     "C16": dict(
         text="Theorems: a frame rendered at gain g is the gain-1 frame scaled sample by sample with identical vocoder state, for either filter family; by induction "
@@ -112,8 +113,9 @@ LEVEL = {
     "C01": dict(
         text="Theorems about the composed pipeline model: returned waveforms have fperiod x F samples with F the sum of the state durations; every label "
              "contributes one duration >= 1 per state on both the speed and the alignment path (so F >= labels x states); MLPG returns one row per frame on "
-             "well-formed streams (with a machine-checked counterexample showing the GV switch must cover every state); a well-formed two-stream configuration "
-             "returns a waveform (it panicked before fix 0c7762d); a vocoder frame is fperiod samples. The composition is tied to Engine::generator/synthesize by "
+             "well-formed streams (with a machine-checked counterexample showing the GV switch must cover every state); totality in full generality "
+             "(synth_total): for every well-formed engine input, two or three streams, speed or alignment, no panic site is reachable, every state lasts at "
+             "least one frame and the waveform has exactly fperiod x F samples (the two-stream case panicked before fix 0c7762d); a vocoder frame is fperiod samples. The composition is tied to Engine::generator/synthesize by "
              "feeding the dumped Models outputs to the model and comparing durations, all three trajectories (hook) and the waveform on bundled and generated "
              "voices. Partial: the finiteness clause is about IEEE overflow and is decided by execution (implementation and bit-identical model).",
         note="Trusted: Lean kernel; axioms ⊆ {propext, Classical.choice, Quot.sound}; tree selection/interpolation enter as dumped inputs (C04/C10 cover them); finiteness is test-level.",
@@ -136,9 +138,10 @@ LEVEL = {
     ),
     "C15": dict(
         text="Theorems: h = 0 is the identity; apply_additional_half_tone maps every state's static mean to clamp(m + h*ln2/12) and changes nothing else; the voicing "
-             "mask, the durations and every stream other than log-F0 are independent of h in the pipeline model. That log-F0 of every voiced frame moves by exactly "
-             "h*ln2/12 through MLPG and GV is decided on every run through the hook (two runs per case, 1e-6), as is the wiring in Engine::generator.",
-        note="Trusted: as C11; shift-equivariance of MLPG+GV tested, not proved.",
+             "mask, the durations and every stream other than log-F0 are independent of h in the pipeline model. Trajectory level (trajectory_shift): adding h to every static mean adds exactly h to every frame "
+             "of the maximum-likelihood trajectory when the dynamic windows sum to zero (uniqueness of the normal-equation solution). That log-F0 moves by exactly "
+             "h*ln2/12 also through the GV iteration is decided on every run through the hook (two runs per case, 1e-6), as is the wiring in Engine::generator.",
+        note="Trusted: as C11; shift-equivariance of MLPG proved, of the GV iteration tested.",
     ),
     "C17": dict(
         text="Theorems over the line-grammar model: splitn yields 1..3 pieces so the expect cannot fire; loading is a total function into ok|error (no panic outcome "
